@@ -31,13 +31,20 @@ try:
         ClientConnection,
     )
     from websockets import (
-        connect as ws_connect,
+        connect as _ws_connect,
     )
     from websockets.typing import (  # type: ignore[import-not-found,unused-ignore]
         Data,
         Origin,
         Subprotocol,
     )
+
+    def ws_connect(*args: Any, **kwargs: Any) -> Any:
+        # websockets>=14 takes the handshake headers as additional_headers
+        if "extra_headers" in kwargs:
+            kwargs["additional_headers"] = kwargs.pop("extra_headers")
+        return _ws_connect(*args, **kwargs)
+
 except ImportError:
     from contextlib import asynccontextmanager
 
